@@ -87,8 +87,12 @@ CloseValue == /\ Top = "value" /\ Emit(<<";">>) /\ Pop /\ UNCHANGED done
 Derive == Mode = "derive" /\ ~done /\ Len(toks) < MaxLen /\
           (OpenRule \/ OpenAt \/ CloseBlock \/ Decl \/ Stmt \/ OpenValue \/ OpenNest \/ Atom \/ CloseNest \/ CloseValue)
 
-(* stop anywhere: truncated inputs are inputs too *)
-Finish == ~done /\ done' = TRUE /\ UNCHANGED <<toks, stack>>
+(* stop anywhere: truncated inputs are inputs too; the end of input is where *)
+(* error positions are computed, so a few unusual last bytes are appended    *)
+Tails == {<<>>, <<"<cr>">>, <<"<c3>">>, <<"<00>">>, <<"\n", "<cr>">>, <<"\\">>}
+Finish == /\ ~done /\ done' = TRUE
+          /\ \E t \in (IF Mode = "soup" THEN {<<>>} ELSE Tails) : toks' = toks \o t
+          /\ UNCHANGED stack
 
 (* the precondition of C01 is an invariant of the generator *)
 DepthOk == Depth <= MaxDepth
